@@ -53,16 +53,16 @@ def gen_flow(rng):
 def cases(tier, seed):
     rng = np.random.default_rng(12000 + seed)
     out = []
-    n = 10 if tier == "quick" else 80
+    n = 10 if tier == "quick" else 240
     for k in range(n):
         out.append(dict(kind="fixed", seed=int(rng.integers(1 << 30)), compressible=bool(k % 3 == 0), npm=int(rng.choice([0, 0, 1])), _cost=10))
-    n = 6 if tier == "quick" else 40
+    n = 6 if tier == "quick" else 120
     for k in range(n):
         out.append(dict(kind="solvers", seed=int(rng.integers(1 << 30)), compressible=bool(k % 3 == 0), _cost=40))
-    n = 4 if tier == "quick" else 24
+    n = 4 if tier == "quick" else 72
     for k in range(n):
         out.append(dict(kind="multipoint", seed=int(rng.integers(1 << 30)), npts=2 + k % 2, _cost=40))
-    n = 3 if tier == "quick" else 16
+    n = 3 if tier == "quick" else 48
     for k in range(n):
         out.append(dict(kind="stiff", seed=int(rng.integers(1 << 30)), _cost=25))
     return out
